@@ -296,6 +296,9 @@ func replayCall(l *Loader, fn *ssa.Function, isLemma bool, o *Obl, outDir string
 			return rr
 		}
 	}
+	if len(terms) == 0 {
+		res.output = ""
+	}
 	raw := parseGetValue(res.output)
 	vals := make([]*big.Int, len(terms))
 	for i := range terms {
@@ -324,8 +327,26 @@ func replayCall(l *Loader, fn *ssa.Function, isLemma bool, o *Obl, outDir string
 	}
 	var call string
 	var argn []string
-	for i := range lits {
-		argn = append(argn, fmt.Sprintf("in%d", i))
+	if len(o.FixedArgs) > 0 {
+		// `each` instance: some parameters are fixed to declared constants
+		c := l.contractFor(fn)
+		next := 0
+		for i, p := range fn.Params {
+			n := p.Name()
+			if c != nil && i < len(c.Params) {
+				n = c.Params[i]
+			}
+			if expr, ok := o.FixedArgs[n]; ok {
+				argn = append(argn, expr)
+				continue
+			}
+			argn = append(argn, fmt.Sprintf("in%d", next))
+			next++
+		}
+	} else {
+		for i := range lits {
+			argn = append(argn, fmt.Sprintf("in%d", i))
+		}
 	}
 	if fn.Signature.Recv() != nil {
 		call = fmt.Sprintf("%s.%s(%s)", argn[0], fn.Name(), strings.Join(argn[1:], ", "))
